@@ -34,6 +34,19 @@ type c10C struct {
 	Cmd c10CCmd `command:"cmd"`
 }
 
+type c10DSub struct {
+	G bool `short:"g"`
+}
+type c10D struct {
+	F   bool   `short:"f"`
+	S   string `short:"s" long:"str"`
+	Pos struct {
+		P1   string
+		Rest []string
+	} `positional-args:"yes"`
+	Rm c10DSub `command:"rm" alias:"r"`
+}
+
 // H_C10_bind: n words interleaved with options and an optional terminator.
 func H_C10_bind(v *V) {
 	decl := v.Shape("decl")
@@ -125,6 +138,17 @@ func H_C10_bind(v *V) {
 		}
 		gotF, gotS = d.F, d.S
 		nfields, hasSlice = 1, true
+	case 3:
+		// the command has positionals and a subcommand: words (which may spell the
+		// subcommand's name or alias) fill the positionals first
+		d := &c10D{}
+		p.AddGroup("Application Options", "", d)
+		p.SubcommandsOptional = true
+		rest, err = p.ParseArgs(argv)
+		got = append([]string{d.Pos.P1}, d.Pos.Rest...)
+		gotF, gotS = d.F, d.S
+		nfields, hasSlice = 1, true
+		v.Assert(p.Active == nil, "a word that fills a positional does not select a command")
 	}
 	vObsErr(v, err)
 	v.Assert(err == nil, "plain words, known options and the terminator parse")
